@@ -235,7 +235,7 @@ pub fn run(ctx: &Ctx) -> Outcome {
     );
     let secs = if ctx.quick() { 40. } else { 900. };
     // directed: non-positive and NaN widths paint nothing
-    run_cases(ctx, &mut out, SubSpec { name: "degenerate_widths_paint_nothing", cases: ctx.n(3_000, 100_000), exhaustive: false, max_secs: secs / 4. }, |i, want, st| {
+    run_cases(ctx, &mut out, SubSpec { name: "degenerate_widths_paint_nothing", cases: ctx.n(6_000, 100_000), exhaustive: false, max_secs: secs / 4. }, |i, want, st| {
         let mut rng = ctx.rng("degenerate_widths_paint_nothing", i);
         let w = rng.int(1, 20) as i32;
         let h = rng.int(1, 20) as i32;
@@ -260,7 +260,7 @@ pub fn run(ctx: &Ctx) -> Outcome {
         co
     });
 
-    run_cases(ctx, &mut out, SubSpec { name: "strokes", cases: ctx.n(12_000, 1_000_000), exhaustive: false, max_secs: secs }, |i, want, st| {
+    run_cases(ctx, &mut out, SubSpec { name: "strokes", cases: ctx.n(40_000, 1_000_000), exhaustive: false, max_secs: secs }, |i, want, st| {
         let mut rng = ctx.rng("strokes", i);
         let w = rng.int(8, 48) as i32;
         let h = rng.int(8, 48) as i32;
